@@ -12,6 +12,7 @@ import (
 
 	"verifharness/core"
 	"verifharness/mig"
+	migold "verifharness/migold"
 	"verifharness/sim"
 )
 
@@ -320,6 +321,38 @@ func c17Global(c *core.Ctx, vs []version) {
 	}
 	restore()
 	c.Nontrivial("double-registration")
+	// a move that changes ONLY the import path (package name and type name stay): old code has
+	// migold.LP (verifharness/migold), new code mig.LP (verifharness/mig) declared as renamed from it
+	if p := core.Try(func() {
+		const oldKey = "verifharness/migold/mig.LP"
+		restore := errbase.TestingWithEmptyMigrationRegistry()
+		defer restore()
+		fromOld := sim.EncBytes(migold.LP{}) // what the old code sends
+		errors.RegisterTypeMigration("verifharness/migold", "mig.LP", mig.LP{})
+		k := errors.GetTypeKey(mig.LP{})
+		if string(k) != oldKey {
+			c.Violate("pkg-move/type-key", "GetTypeKey of a type whose package path changed is not the original key", string(k))
+		}
+		errors.RegisterLeafDecoder(k, func(context.Context, string, []string, proto.Message) error { return mig.LP{} })
+		defer errors.RegisterLeafDecoder(k, nil)
+		enc := errors.EncodeError(sim.Ctx, mig.LP{})
+		if fam := enc.GetLeaf().Details.ErrorTypeMark.FamilyName; fam != oldKey {
+			c.Violate("pkg-move/encoded-name", "a type whose package path changed is not encoded under its original name", fam)
+		}
+		d := sim.DecBytes(fromOld)
+		if _, ok := d.(mig.LP); !ok {
+			c.Violate("pkg-move/decoded-type", "an error arriving under the original name is not decoded to the moved type", fmt.Sprintf("%T", d))
+		}
+		if !errors.Is(d, mig.LP{}) || !errors.Is(mig.LP{}, d) || !errors.Is(sim.DecBytes(sim.Marshal(enc)), d) {
+			c.Violate("pkg-move/is", "Is does not recognize the moved type across old and new code", "")
+		}
+		if p := core.Try(func() { errors.RegisterTypeMigration("verifharness/elsewhere", "mig.LP", mig.LP{}) }); p == nil {
+			c.Violate("pkg-move/double-registration", "registering the same target type twice is not rejected", "")
+		}
+		c.Nontrivial("pkg-move")
+	}); p != nil {
+		c.Violate("pkg-move/panic", "the package-move scenario panicked", fmt.Sprint(p))
+	}
 	// scenario 5: errors from different versions compared at a process that never knew the type
 	type sent struct {
 		name string
